@@ -122,6 +122,11 @@ def check_proofs(ctx, module, theorems):
     """Build `module`, audit axioms of `theorems` (fully qualified names).
     Fills ctx.obligations / discharged; returns list of broken theorem names."""
     ctx.obligations += theorems
+    if os.environ.get("VERIF_SKIP_PROOFS"):
+        # tools/mutrun.sh only: the Lean tree is shared with work in progress; a seeded-change run then judges the
+        # correspondence/oracle side alone with the driver that is already built (never used by a registered check)
+        ctx.notes.append("VERIF_SKIP_PROOFS set: proof obligations not rebuilt in this run")
+        return [], ""
     ok, log = lake_build([module, "driver"])
     broken = []
     if not ok:
